@@ -138,9 +138,18 @@ type stubWidget struct {
 	pw, ph int
 	view   views.View
 	id     int
+	// a nested BoxLayout with leaf children of its own (nil for a leaf)
+	nest     *views.BoxLayout
+	nhoriz   bool
+	sub      []*stubWidget
+	subfills []int
 }
 
 func (s *stubWidget) Draw() {
+	if s.nest != nil {
+		s.nest.Draw()
+		return
+	}
 	if s.view == nil {
 		return
 	}
@@ -151,10 +160,38 @@ func (s *stubWidget) Draw() {
 		}
 	}
 }
-func (s *stubWidget) Resize()                         {}
+func (s *stubWidget) Resize() {
+	if s.nest != nil {
+		s.nest.Resize()
+	}
+}
 func (s *stubWidget) HandleEvent(ev tcell.Event) bool { return false }
-func (s *stubWidget) SetView(v views.View)            { s.view = v }
-func (s *stubWidget) Size() (int, int)                { return s.pw, s.ph }
+
+// Watch / Unwatch: events of the nested layout reach whoever watches the wrapper
+func (s *stubWidget) Watch(h tcell.EventHandler) {
+	s.WidgetWatchers.Watch(h)
+	if s.nest != nil {
+		s.nest.Watch(h)
+	}
+}
+func (s *stubWidget) Unwatch(h tcell.EventHandler) {
+	s.WidgetWatchers.Unwatch(h)
+	if s.nest != nil {
+		s.nest.Unwatch(h)
+	}
+}
+func (s *stubWidget) SetView(v views.View) {
+	s.view = v
+	if s.nest != nil {
+		s.nest.SetView(v)
+	}
+}
+func (s *stubWidget) Size() (int, int) {
+	if s.nest != nil {
+		return s.nest.Size()
+	}
+	return s.pw, s.ph
+}
 
 type layoutRun struct {
 	tw    *trace.Writer
@@ -213,8 +250,26 @@ func (r *layoutRun) observe(op string) {
 		if a := per[k.id]; a != nil {
 			d = []int{a.minx, a.miny, a.maxx, a.maxy, a.n}
 		}
-		kids = append(kids, map[string]interface{}{"x": x1, "y": y1, "w": x2 - x1 + 1, "h": y2 - y1 + 1, "pw": k.pw, "ph": k.ph,
-			"fill": r.fills[i], "drawn": d})
+		pw, ph := k.Size()
+		nest := []interface{}{}
+		if k.nest != nil {
+			subs := []interface{}{}
+			for j, g := range k.sub {
+				gx1, gy1, gx2, gy2 := 0, 0, -1, -1
+				if gvp, ok := g.view.(*views.ViewPort); ok {
+					gx1, gy1, gx2, gy2 = gvp.GetPhysical()
+				}
+				gd := []int{0, 0, 0, 0, 0}
+				if a := per[g.id]; a != nil {
+					gd = []int{a.minx, a.miny, a.maxx, a.maxy, a.n}
+				}
+				subs = append(subs, map[string]interface{}{"x": gx1, "y": gy1, "w": gx2 - gx1 + 1, "h": gy2 - gy1 + 1, "pw": g.pw, "ph": g.ph,
+					"fill": k.subfills[j], "drawn": gd, "nest": []interface{}{}})
+			}
+			nest = append(nest, map[string]interface{}{"horiz": k.nhoriz, "kids": subs})
+		}
+		kids = append(kids, map[string]interface{}{"x": x1, "y": y1, "w": x2 - x1 + 1, "h": y2 - y1 + 1, "pw": pw, "ph": ph,
+			"fill": r.fills[i], "drawn": d, "nest": nest})
 	}
 	r.tw.Emit(trace.Ev{"ev": "Layout", "op": op, "horiz": r.horiz, "W": r.rv.w, "H": r.rv.h, "kids": kids, "overdraw": over})
 }
@@ -241,6 +296,25 @@ func (r *layoutRun) step(rng *rand.Rand) {
 		case k < 4 && len(r.kids) < 8:
 			w := &stubWidget{pw: rng.Intn(9), ph: rng.Intn(6), id: r.nextq}
 			r.nextq++
+			if rng.Intn(4) == 0 { // a nested layout with leaves of its own
+				w.nhoriz = rng.Intn(2) == 0
+				o := views.Vertical
+				if w.nhoriz {
+					o = views.Horizontal
+				}
+				w.nest = views.NewBoxLayout(o)
+				for j := 0; j < 1+rng.Intn(3); j++ {
+					g := &stubWidget{pw: rng.Intn(5), ph: rng.Intn(4), id: r.nextq}
+					r.nextq++
+					gf := []int{0, 1, 1, 2}[rng.Intn(4)]
+					w.nest.AddWidget(g, float64(gf))
+					w.sub = append(w.sub, g)
+					w.subfills = append(w.subfills, gf)
+				}
+				// a BoxLayout knows its preferred size only once it has been laid out: do that on a scratch view
+				w.nest.SetView(&recView{w: 10, h: 10})
+				w.nest.Resize()
+			}
 			f := []int{0, 0, 1, 1, 2, 3, 5}[rng.Intn(7)]
 			if rng.Intn(2) == 0 {
 				r.box.AddWidget(w, float64(f))
